@@ -42,6 +42,7 @@ public:
         p.cfg["scale"] = (int64_t)r.below(2);
         p.cfg["fullrange"] = (int64_t)r.below(2);
         p.cfg["bankseed"] = (int64_t)r.below(100000);
+        p.cfg["veloff"] = (int64_t)r.chance(0.4);   // per-instrument MIDI velocity offsets (only settable through the bank API)
         int len = (int)r.range(20, thorough ? 200 : 100);
         auto val = [&]() -> int64_t { return r.chance(0.45) ? (int64_t)r.pick<int>({ 0, 1, 2, 63, 64, 65, 126, 127 }) : (int64_t)r.below(128); };
         for(int i = 0; i < len; ++i)
@@ -87,6 +88,22 @@ public:
             dev[k] = opn2_init(44100); opn2_openBankData(dev[k], bank.data(), (long)bank.size());
             opn2_switchEmulator(dev[k], OPNMIDI_EMU_GENS); opn2_setNumChips(dev[k], 2);
             opn2_setVolumeRangeModel(dev[k], model); opn2_setScaleModulators(dev[k], scale); opn2_setFullRangeBrightness(dev[k], fullRange);
+        }
+        if(p.get("veloff", 0))
+        {
+            // every third instrument gets a velocity offset in -48..+48 through opn2_setInstrument (the file format has no field for it)
+            for(int k = 0; k < 2; ++k) for(unsigned perc = 0; perc < 2; ++perc)
+            {
+                OPN2_BankId id; memset(&id, 0, sizeof id); id.percussive = (OPN2_UInt8)perc; OPN2_Bank b;
+                if(opn2_getBank(dev[k], &id, 0, &b) != 0) continue;
+                for(unsigned i = 0; i < 128; i += 3)
+                {
+                    OPN2_Instrument in; if(opn2_getInstrument(dev[k], &b, i, &in) != 0) continue;
+                    in.midi_velocity_offset = (OPN2_SInt8)((int)(mix64((uint64_t)p.get("bankseed"), perc * 128 + i) % 97) - 48);
+                    opn2_setInstrument(dev[k], &b, i, &in);
+                }
+            }
+            run.count("velocity_offsets_in_use");
         }
         if(opn2_getVolumeRangeModel(dev[0]) != model) { run.fail("volume-model-not-set", "setup", ""); opn2_close(dev[0]); opn2_close(dev[1]); tapInstall(false); return; }
         run.count(("model." + std::to_string(model)).c_str());
